@@ -168,3 +168,70 @@ PROPS['C17'] = {
         J('hist_casan', 'c17.cpp', 'casan', [0, 500000], scenario='shared_future_history', threads=1, tiers=(T,)),
     ],
 }
+
+_FUT_RULE = ('case = one team round on a fresh future<T>/promise<T> (T drawn from int, void, move-only, int&, instance-counted 7-word struct): '
+             '1-4 contenders invoke the SAME promise object concurrently with value / exception_ptr / drop / no call, the contender finishing '
+             'last destroys the promise object inside the round (so "destruction resolves" is exercised whenever nobody won); 0-3 waiters of kinds '
+             '{co_await f, co_await f.has_value(), wait(), sync()+value(), callback awaiter via co_awaiter::subscribe, poll ready()} on other threads; '
+             'random start offsets and role-aware stall plans at the claim/set/resolve/chain-walk and subscribe sites. Non-trivial = >=2 competing '
+             'calls or >=1 waiter. Distinct = (T, action multiset, winner action, per waiter kind x {found ready, parked, lost subscribe CAS to '
+             'ready}, chain length walked by the resolver).')
+PROPS['C01'] = {
+    'technique': 'stress + stall injection on a pinned thread team; boundary oracles on call results, future state (read twice), instance counters; ASan/UBSan',
+    'level_text': ('On every executed round exactly one competing call reported success (or none when nobody called), every other call reported '
+                   'failure and did not consume its move-only argument, the future holds exactly the winner\'s payload (address identity for int&), '
+                   'two reads agree, payload instance counts balance, and the future is resolved (no-value) once the promise object is gone. '
+                   'Exploration over >=2e5 rounds per quick run; the evidence lists how many rounds had competing resolvers, which resolver kind won '
+                   'and how often the promise destructor resolved.'),
+    'level_note': 'Trusts the harness monitors and the closed-round construction (done counter with acq_rel is the only harness-made synchronisation inside a round).',
+    'rule': _FUT_RULE,
+    'min_nontrivial': [200, 2000],
+    'require_classes': ['future_mt:rounds_with_competing_resolvers', 'future_mt:winner_promise_destruction', 'future_mt:winner_drop', 'future_mt:winner_exception'],
+    'jobs': [
+        J('mt_rel', 'c01.cpp', 'rel', [400000, 20000000], scenario='future_mt', threads=6),
+        J('mt_asan', 'c01.cpp', 'asan', [60000, 3000000], scenario='future_mt', threads=6),
+        J('mt_crel', 'c01.cpp', 'crel', [0, 10000000], scenario='future_mt', threads=6, tiers=(T,)),
+        J('mt_casan', 'c01.cpp', 'casan', [0, 1500000], scenario='future_mt', threads=6, tiers=(T,)),
+    ],
+}
+PROPS['C02'] = {
+    'technique': 'stress + stall injection; per-waiter once-flags, ready()-at-release and payload checksum oracles; quiescence watchdog for lost wake-ups; ASan',
+    'level_text': ('Every waiter of every executed round was released exactly once, found ready()==true and the complete expected result when it ran, '
+                   'and no blocking waiter stayed blocked at quiescence. The evidence counts waiters per interleaving class (found ready / parked before '
+                   'resolution / lost the subscribe CAS to the resolver); a run in which the parked or the lost-race class is empty is inconclusive. '
+                   'Second scenario: the resolver is the completion of an async<T> coroutine finished by another thread.'),
+    'level_note': 'A stall right after a successful publish (aw_subchk_post) plus ASan is the detector for touching the awaiter after publishing it.',
+    'rule': _FUT_RULE + ' Second scenario future_async_mt: outer future of an async<T> coroutine that is suspended on a gate future opened by thread 0.',
+    'min_nontrivial': [200, 2000],
+    'require_classes': ['future_mt:waiter_parked_before_resolution', 'future_mt:waiter_lost_subscribe_race_to_ready', 'future_async_mt:waiter_parked_before_resolution',
+                        'future_async_mt:waiter_lost_subscribe_race_to_ready'],
+    'jobs': [
+        J('mt_rel', 'c02.cpp', 'rel', [300000, 20000000], scenario='future_mt,future_async_mt', threads=6),
+        J('mt_asan', 'c02.cpp', 'asan', [50000, 3000000], scenario='future_mt,future_async_mt', threads=6),
+        J('mt_crel', 'c02.cpp', 'crel', [0, 10000000], scenario='future_mt,future_async_mt', threads=6, tiers=(T,)),
+        J('mt_casan', 'c02.cpp', 'casan', [0, 1500000], scenario='future_mt,future_async_mt', threads=6, tiers=(T,)),
+    ],
+}
+
+_C03_SCEN = [  # (scenario, threads, quick cases, thorough cases)
+    ('future_mt', 5, 12000, 600000), ('future_async_mt', 5, 12000, 600000), ('mutex_mt', 4, 10000, 500000), ('mutex_pool_handoff', 1, 20000, 400000),
+    ('queue_mt', 5, 8000, 400000), ('lqueue_mt', 5, 8000, 400000), ('shared_future_mt', 4, 10000, 500000),
+    ('scheduler_threads', 1, 6000, 200000), ('scheduler_stop_race', 1, 6000, 200000),
+]
+PROPS['C03'] = {
+    'technique': 'ThreadSanitizer (happens-before race detection) over the shared multi-threaded scenario library; guarded fence annotation',
+    'level_text': ('No ThreadSanitizer report (de-duplicated by the pair of outermost cocls frames) in any executed round of the multi-threaded scenario '
+                   'library of all other properties, compiled -fsanitize=thread, with the harness adding no synchronisation inside a round '
+                   '(hook handler and monitors use relaxed non-RMW atomics only). TSan decides on happens-before of executed accesses, so a missing '
+                   'release/acquire is reported on x86 although the hardware hides it.'),
+    'level_note': ('Limits: only access pairs the workload executed; std::atomic_thread_fence is modelled through the guarded __tsan_acquire annotation '
+                   'in subscribe_check_ready (verified not to hide the missing release); seq_cst->acq_rel weakenings and relaxed-atomic reasoning errors '
+                   'that are not data races are invisible. Behavioural monitor violations seen in this build are ignored here (owning property reports them).'),
+    'rule': ('case = one round of a multi-threaded scenario (future, async completion, mutex, pool hand-over, queue, bounded queue, shared_future, '
+             'scheduler threads, ... see variants) under TSan; non-trivial and distinct as defined by the owning scenario.'),
+    'ignore_key': r'^C03\|[a-z_]+\|monitor:',
+    'min_nontrivial': [200, 2000],
+    'jobs': [J(s, 'c03.cpp', 'tsan', [q, t], scenario=s, threads=th) for (s, th, q, t) in _C03_SCEN]
+            + [J(s + '_assert', 'c03.cpp', 'tsanassert', [0, t // 2], scenario=s, threads=th, tiers=(T,)) for (s, th, q, t) in _C03_SCEN]
+            + [J(s + '_clang', 'c03.cpp', 'ctsan', [0, t // 2], scenario=s, threads=th, tiers=(T,)) for (s, th, q, t) in _C03_SCEN],
+}
